@@ -180,8 +180,9 @@ def J3(t, y, amp=1.0, **kw):
     return analytic_jac(t, y, amp) + 55.0
 
 
+# (a fourth entry of a jac request is ANOTHER value of the system's constant for that request: a parameter scan of the Jacobian at a fixed time and state)
 OPS = [("jac", "A", "A"), ("jac", "B", "A"), ("jac", "A", "B"), ("jac", "B", "B"), ("jac", "C", "A"), ("jac", "C", "B"), ("hook", 1), ("hook", 2), ("unhook",), ("assign", 1), ("call",),
-       ("setattr",), ("delattr",)]
+       ("setattr",), ("delattr",), ("jac", "B", "A", 3.0), ("jac", "A", "A", 3.0)]
 
 
 def build_rhs(cfg):
@@ -222,18 +223,19 @@ def step16(cfg, hist):
                 t = T_A if op[1] == "A" else (T_B if op[1] == "B" else T_C)
                 y = Y_A if op[2] == "A" else Y_B
                 requests += 1
-                got = np.asarray(rhs.jac(t, y, amp=AMP))
+                amp = op[3] if len(op) > 3 else AMP
+                got = np.asarray(rhs.jac(t, y, amp=amp))
                 if hooked is None and source is None:
                     source = "attr" if attr_present else "fd"
                 attached = hooked if hooked is not None else source
                 if last:
                     if attached in (1, 2):
-                        want = (J1 if attached == 1 else J2)(t, y, amp=AMP)
+                        want = (J1 if attached == 1 else J2)(t, y, amp=amp)
                         exact = True
                     elif attached == "attr":
-                        want = analytic_jac(t, y) + 55.0; exact = True
+                        want = analytic_jac(t, y, amp) + 55.0; exact = True
                     else:
-                        want = analytic_jac(t, y); exact = False
+                        want = analytic_jac(t, y, amp); exact = False
                     if got.shape != want.shape:
                         r.v("C16/rhs-jac-shape", "Jacobian layout", case, observed=list(got.shape), expected=list(want.shape))
                     elif exact and not np.array_equal(got, want):
